@@ -12,10 +12,13 @@ THEOREMS = ["PotasscoVerif.C16.C16_roundtrip_signed", "PotasscoVerif.C16.C16_rou
             "PotasscoVerif.C16.C16_roundtrip_bool", "PotasscoVerif.C16.C16_roundtrip_char", "PotasscoVerif.C16.strto_decimal",
             "PotasscoVerif.C16.C16_hex_signed", "PotasscoVerif.C16.C16_hex_unsigned", "PotasscoVerif.C16.C16_octal_signed", "PotasscoVerif.C16.C16_octal_unsigned",
             "PotasscoVerif.C16.C16_keyword_imax", "PotasscoVerif.C16.C16_keyword_imin", "PotasscoVerif.C16.C16_keyword_umax", "PotasscoVerif.C16.C16_keyword_minus_one",
-            "PotasscoVerif.C16.C16_unsigned_rejects_negative"]
-EXTRA_MODULES = ["PotasscoVerif.Props.C16b"]
-PARTIAL = {"C16_accept_iff_fits for composite types": "accepted-iff-it-fits is proved for decimal (signed), hexadecimal and octal (signed and unsigned) texts of any length and for the keywords; "
-           "unsigned decimal texts other than those the library writes, pairs, lists and enumerations are decided by the correspondence run, the big-integer oracle and the EnumClass reference"}
+            "PotasscoVerif.C16.C16_unsigned_rejects_negative",
+            "PotasscoVerif.C16.matched_signed", "PotasscoVerif.C16.matched_unsigned", "PotasscoVerif.C16.C16_pair_roundtrip", "PotasscoVerif.C16.C16_pair_paren",
+            "PotasscoVerif.C16.C16_list_roundtrip", "PotasscoVerif.C16.C16_pair_int_unsigned", "PotasscoVerif.C16.C16_list_int"]
+EXTRA_MODULES = ["PotasscoVerif.Props.C16b", "PotasscoVerif.Props.C16c"]
+PARTIAL = {"C16_accept_iff_fits for unsigned decimal texts / enumerations": "accepted-iff-it-fits is proved for decimal (signed), hexadecimal and octal (signed and unsigned) texts of any length and for the keywords; "
+           "value -> text -> value is proved for all scalar types, for pairs and non-empty lists of matched members (Props/C16c: C16_pair_roundtrip, C16_pair_paren, C16_list_roundtrip and the instances the library uses); "
+           "unsigned decimal texts other than those the library writes and enumerations are decided by the correspondence run, the big-integer oracle and the EnumClass reference"}
 BSIZES = (4096,)
 RULE = ("values: boundary neighbourhoods of every 32/64-bit type, powers of two and ten, random (thorough: additionally a 2^20-value stratified sweep of the 32-bit types); strings: optional sign, "
         "base prefix (0x/0X/0), digit strings of 1..40 digits incl. values around every type limit in bases 8/10/16, keywords imax/imin/umax/-1, optional trailing characters; "
@@ -158,12 +161,22 @@ def generate(ctx):
         elif k < 0.93: out.append({"t": "char", "op": "w", "arg": str(rng.randint(1, 255))})
         elif k < 0.95: out.append({"t": "bool", "op": "w", "arg": str(rng.randint(0, 1))})
         elif k < 0.965: out.append(gen_enumc(rng))
-        elif k < 0.98:
+        elif k < 0.972:
             a, b = rng.choice([-2**31, 2**31 - 1, 0, rng.randint(-2**31, 2**31 - 1)]), rng.choice([0, 2**32 - 1, rng.randint(0, 2**32 - 1)])
             out.append({"t": "pair", "op": "w", "arg": "%d,%d" % (a, b)})
-        else:
+        elif k < 0.98:
             vs = [rng.choice([-2**31, 2**31 - 1, 0, rng.randint(-2**31, 2**31 - 1)]) for _ in range(rng.randint(1, 6))]
             out.append({"t": "vec", "op": "w", "arg": ",".join(map(str, vs))})
+        else:
+            # composite TEXTS (model == implementation): elements in every spelling, brackets/parentheses present, missing or unbalanced, separators doubled,
+            # trailing or missing, elements out of range or not numeric, junk behind
+            def el(): return rng.choice([numeric_text(rng, rng.choice(["i32", "u32"])), b"%d" % rng.randint(-5, 5), b"", b"x", b"imax", b"umax", b"-1", b"2147483648", b"-2147483649", b"4294967296", b"0x1f", b"017"])
+            tt = rng.choice(["pair", "vec"])
+            parts = [el() for _ in range(rng.choice([0, 1, 2, 2, 2, 3] if tt == "pair" else [0, 1, 2, 3, 5]))]
+            body = rng.choice([b",", b",", b",", b",,", b";", b" ,"]).join(parts) if rng.random() < 0.2 else b",".join(parts)
+            op, cl = (b"(", b")") if tt == "pair" else (b"[", b"]")
+            text = rng.choice([b"", b"", op, op, cl]) + body + rng.choice([b"", b"", cl, cl, b",", cl + b"x", b" "])
+            out.append({"t": tt, "op": "p", "arg": hexs(text.replace(b"\x00", b""))})
     if ctx.tier == "thorough":
         for t in ("i32", "u32"):
             lo, hi = RANGES[t]
@@ -178,7 +191,7 @@ def evaluate(ctx, cases):
         return "sc %s %s%s" % (c["t"], c["op"], "" if c["arg"] is None else " " + c["arg"])
     lines = [line(c) for c in cases]
     impl = ctx.impl(lines)
-    modelable = [k for k, c in enumerate(cases) if c["t"] in RANGES or c["t"] in ("bool", "char")]
+    modelable = [k for k, c in enumerate(cases) if c["t"] in RANGES or c["t"] in ("bool", "char", "pair", "vec")]
     mres = dict(zip(modelable, ctx.model(["sc %s %s %s" % (cases[k]["t"], "p" if cases[k]["op"] == "P" else cases[k]["op"], cases[k]["arg"]) for k in modelable])))
     back = []   # round trips: write results to be parsed again
     for k, (c, i) in enumerate(zip(cases, impl)):
